@@ -1,0 +1,20 @@
+//go:build verif
+
+// Contracts for package path (without the generated peg.go), checked by /verif/govc (comment-only; compiled only with -tags verif).
+package path
+
+//@ prelude c16
+
+//@ func build(source string, parsed any) PropertyPath
+//@   ensures-assumed [C16:A-PURE] result == buildF(source, parsed)
+//@   ensures [C16:iri] is(parsed, path.IRI) ==> (is(result, path.Property) && result.(path.Property).Iri == parsed.(path.IRI).Value && result.(path.Property).Inverse == parsed.(path.IRI).Inverse && result.(path.Property).Transitive == parsed.(path.IRI).Transitive && result.(path.Property).source == source)
+//@   ensures [C16:sequence] is(parsed, path.AND) ==> (is(result, path.AndPath) && result.(path.AndPath).source == source && len(result.(path.AndPath).And) == len(parsed.(path.AND).body) && (forall k int :: 0 <= k && k < len(parsed.(path.AND).body) ==> result.(path.AndPath).And[k] == buildF(source, parsed.(path.AND).body[k])))
+//@   ensures [C16:alternative] is(parsed, path.OR) ==> (is(result, path.OrPath) && result.(path.OrPath).source == source && len(result.(path.OrPath).Or) == len(parsed.(path.OR).body) && (forall k int :: 0 <= k && k < len(parsed.(path.OR).body) ==> result.(path.OrPath).Or[k] == buildF(source, parsed.(path.OR).body[k])))
+//@   loop 1 /* for _, a := range v.body */
+//@     invariant [C16] len(acc) == #i && (forall k int :: 0 <= k && k < #i ==> acc[k] == buildF(source, v.body[k]))
+//@   loop 2 /* for _, o := range v.body */
+//@     invariant [C16] len(acc) == #i && (forall k int :: 0 <= k && k < #i ==> acc[k] == buildF(source, v.body[k]))
+
+//@ func ParsePath(path string) (PropertyPath, error)
+//@   ensures [C16:empty-is-null-path] path == "" ==> (result1 == nil && is(result0, path.NullPath) && result0.(path.NullPath).source == "")
+//@   ensures [C16:error-or-path] path != "" ==> (result1 != nil ==> result0 == nil)
